@@ -26,14 +26,7 @@ Definition L1 := "C11-L1-accuracy-length-checked-after-predict".   (* benign: Va
 
 Definition exceptions : list exc := [
   (* GAM.score -> _estimate_r2: y and weights are never validated, lengths never compared *)
-  mk_exc S15 None "GAM" "score" AY KNonFinite None true;
-  mk_exc S15 None "GAM" "score" AY KLen None true;
-  mk_exc S15 None "GAM" "score" AY KDomain None true;
-  mk_exc S15 None "GAM" "score" AW KNonFinite None true;
-  mk_exc S15 None "GAM" "score" AW KLen None true;
-  mk_exc S15 None "GAM" "score" AX KLen None true;
   (* PoissonGAM.predict: exposure only cast and length-checked *)
-  mk_exc S8a None "PoissonGAM" "predict" AE KNonFinite None true;
   (* GAM.sample: with n_bootstraps = 1 the loop that would refit (and validate) never runs *)
   mk_exc S8b None "GAM" "sample" AY KNonFinite None true;
   mk_exc S8b None "GAM" "sample" AY KLen None true;
@@ -42,45 +35,13 @@ Definition exceptions : list exc := [
   mk_exc S8b None "GAM" "sample" AW KLen None true;
   mk_exc S8b None "GAM" "sample" AX KLen None true;
   (* gridsearch on an unfitted model: _validate_data_dep_params(X) reads X.shape and compiles the terms first *)
-  mk_exc S8c None "GAM" "gridsearch" AX KNonFinite None false;
-  mk_exc S8c None "GAM" "gridsearch" AX KLen None false;
-  mk_exc S8c None "PoissonGAM" "gridsearch" AX KNonFinite None false;
-  mk_exc S8c None "PoissonGAM" "gridsearch" AX KLen None false;
   (* loglikelihood never compares len(X) with len(y) *)
-  mk_exc S16 None "GAM" "loglikelihood" AX KLen None true;
-  mk_exc S16 None "GAM" "loglikelihood" AY KLen None true;
-  mk_exc S16 None "PoissonGAM" "loglikelihood" AX KLen None true;
-  mk_exc S16 None "PoissonGAM" "loglikelihood" AY KLen None true;
   (* ExpectileGAM.fit_quantile on a fitted model: (predict(X) > y).mean() before any validation of y *)
   mk_exc S17 None "ExpectileGAM" "fit_quantile" AY KNonFinite None true;
   mk_exc S17 None "ExpectileGAM" "fit_quantile" AY KLen None true;
   mk_exc S17 None "ExpectileGAM" "fit_quantile" AY KDomain None true;
   mk_exc S17 None "ExpectileGAM" "fit_quantile" AX KLen None true;
   (* PoissonGAM._exposure_to_weights: y.ravel() on the raw argument (list / tuple -> AttributeError) *)
-  mk_exc S18 None "PoissonGAM" "fit" AY KNonFinite (Some CList) true;
-  mk_exc S18 None "PoissonGAM" "fit" AY KLen (Some CList) true;
-  mk_exc S18 None "PoissonGAM" "fit" AY KDomain (Some CList) true;
-  mk_exc S18 None "PoissonGAM" "fit" AY KNonFinite (Some CTuple) true;
-  mk_exc S18 None "PoissonGAM" "fit" AY KLen (Some CTuple) true;
-  mk_exc S18 None "PoissonGAM" "fit" AY KDomain (Some CTuple) true;
-  mk_exc S18 None "PoissonGAM" "fit" AY KNonFinite (Some CList) false;
-  mk_exc S18 None "PoissonGAM" "fit" AY KLen (Some CList) false;
-  mk_exc S18 None "PoissonGAM" "fit" AY KDomain (Some CList) false;
-  mk_exc S18 None "PoissonGAM" "fit" AY KNonFinite (Some CTuple) false;
-  mk_exc S18 None "PoissonGAM" "fit" AY KLen (Some CTuple) false;
-  mk_exc S18 None "PoissonGAM" "fit" AY KDomain (Some CTuple) false;
-  mk_exc S18 None "PoissonGAM" "gridsearch" AY KNonFinite (Some CList) true;
-  mk_exc S18 None "PoissonGAM" "gridsearch" AY KLen (Some CList) true;
-  mk_exc S18 None "PoissonGAM" "gridsearch" AY KDomain (Some CList) true;
-  mk_exc S18 None "PoissonGAM" "gridsearch" AY KNonFinite (Some CTuple) true;
-  mk_exc S18 None "PoissonGAM" "gridsearch" AY KLen (Some CTuple) true;
-  mk_exc S18 None "PoissonGAM" "gridsearch" AY KDomain (Some CTuple) true;
-  mk_exc S18 None "PoissonGAM" "gridsearch" AY KNonFinite (Some CList) false;
-  mk_exc S18 None "PoissonGAM" "gridsearch" AY KLen (Some CList) false;
-  mk_exc S18 None "PoissonGAM" "gridsearch" AY KDomain (Some CList) false;
-  mk_exc S18 None "PoissonGAM" "gridsearch" AY KNonFinite (Some CTuple) false;
-  mk_exc S18 None "PoissonGAM" "gridsearch" AY KLen (Some CTuple) false;
-  mk_exc S18 None "PoissonGAM" "gridsearch" AY KDomain (Some CTuple) false;
   (* LogisticGAM.accuracy / score: check_X_y(mu, y) runs after mu = predict_mu(X) *)
   mk_exc L1 None "LogisticGAM" "accuracy" AX KLen None true;
   mk_exc L1 None "LogisticGAM" "score" AX KLen None true
